@@ -555,6 +555,29 @@ def _projection(check, repo, mod, fp) -> None:
     meas = params[1]
     check.assume("the measured amplitudes handed to fourier_projection are detector-centred (they are the loss targets, which "
                  "DetectorPixelated.forward's fftshift-ed predictions are compared with)")
+    # the single-/mixed-state dispatch reads the LIVE number of modes.  Two sites: PtychographyBase.num_probes either delegates to the probe model (always current) or returns
+    # a value cached when the model was installed — the cache is sound only while nothing can change the model's mode count afterwards (no store into num_probes in a
+    # ProbePixelated setter / method other than __init__).
+    _npm, nump = repo.func(f"{PB}:PtychographyBase.num_probes")
+    nrets = [r.value for r in ast.walk(nump) if isinstance(r, ast.Return) and r.value is not None]
+    delegates = len(nrets) == 1 and unparse(nrets[0]) in ("self.probe_model.num_probes", "self._probe_model.num_probes")
+    key_np = "fourier_projection's single/mixed-state dispatch reads the live number of probe modes"
+    if delegates:
+        check.holds("C16-R4", key_np, "num_probes delegates to the probe model", repo.module(PB).line(nump))
+    elif len(nrets) == 1 and isinstance(nrets[0], ast.Attribute) and dotted(nrets[0].value) == "self" and nrets[0].attr.startswith("_"):
+        PMq = "quantem.diffractive_imaging.probe_models"
+        _pmm, pcls = repo.cls(f"{PMq}:ProbePixelated")
+        writers = [f_.name + ("@setter" if any(isinstance(d_, ast.Attribute) and d_.attr == "setter" for d_ in f_.decorator_list) else "")
+                   for f_ in pcls.body if isinstance(f_, ast.FunctionDef) and f_.name != "__init__"
+                   and any(isinstance(n_, ast.Assign) and any(dotted(t_) in ("self.num_probes", "self._num_probes") for t_ in n_.targets) for n_ in ast.walk(f_))]
+        if writers:
+            check.violated("C16-R4", key_np, f"PtychographyBase.num_probes returns the cached `{unparse(nrets[0])}` while ProbePixelated.{writers[0]} can change the model's mode count afterwards: "
+                           f"after a 2-mode stack is installed through the probe setter the dispatch still takes the single-state branch — the summed Fourier magnitude is √2 × the "
+                           f"measured amplitude", repo.module(PB).line(nump), definite=True)
+        else:
+            check.holds("C16-R4", key_np, "cached at model installation; no method of the probe model changes its mode count afterwards", repo.module(PB).line(nump))
+    else:
+        raise AnalysisError("PtychographyBase.num_probes: source of the mode count not recognised")
     # centring typestate (qv/domains/frames.py): measured data are Centred, spectra are Corner; every element-wise pairing joins two values of the SAME frame,
     # every inverse transform receives a Corner spectrum — per branch.  estimate_amplitudes is summarised for the option values its callers actually pass.
     _tm, _fp, est, fr, summaries = _frame_events(repo)
